@@ -343,6 +343,10 @@ func c18Exec(op string) string {
 		// earlier one (comment, processing instruction and directive included)
 		if cl.name == "SetGlobalKeyMapPrefix" {
 			doc := []byte(`<a x="1"><!--c--><?pi t?><!DOCTYPE d><b>1</b></a>`)
+			if s, _ := cl.arg.(string); s != "_" {
+				// elements named like the reserved keys of ANOTHER prefix are ordinary elements
+				doc = []byte(`<a x="1"><!--c--><?pi t?><!DOCTYPE d><b>1</b><_comment>hi</_comment><_procinst>p</_procinst><_directive>d</_directive><_text>t</_text></a>`)
+			}
 			if ms, err := mxj.NewMapXmlSeq(doc); err == nil {
 				xs, xerr := ms.Xml()
 				want, _ := tokenStream(doc)
